@@ -83,6 +83,7 @@ func Layer(r *ev.Run) {
 	}
 	r.RequireAtLeast("proxy_rejected_statements_checked", 40)
 	r.RequireAtLeast("proxy_accepted_after_rejection_equal_reference", 40)
+	r.RequireAtLeast("proxy_rejected_pipelined_flush_groups_checked", 3)
 }
 
 type planned struct {
@@ -184,6 +185,9 @@ func session(r *ev.Run, rng *gen.Rand, sidx int) {
 			st.SQL = v
 			st.Groups = [][]pgproto3.FrontendMessage{{&pgproto3.Query{String: v}}}
 		}
+		if p.reject && st.Proto != "simple" && rng.Intn(2) == 0 {
+			st = withFlush(rng, st)
+		}
 		history = append(history, fmt.Sprintf("[%s reject=%v %s] %.240s", st.Proto, p.reject, p.why, st.SQL))
 		if !p.reject {
 			before := r.Counter("owner_replies_equal_reference")
@@ -238,6 +242,14 @@ func session(r *ev.Run, rng *gen.Rand, sidx int) {
 				r.Violation(sig("rejected statement forwarded to the database"), detail(map[string]interface{}{"forwarded": m.SQL, "as": m.Type}))
 			}
 		}
+		// nothing that belongs to the rejected statement's message group may reach the database either: the rest of an
+		// extended-protocol group (Bind / Describe / Execute) would run whatever statement the database holds under that name
+		for _, m := range w.Store.Log()[logStart:] {
+			switch m.Type {
+			case "Query", "Parse", "Bind", "Execute", "Describe", "Close":
+				r.Violation(sig("message of a rejected statement's group forwarded to the database: "+m.Type), detail(map[string]interface{}{"forwarded_type": m.Type, "forwarded_sql": m.SQL, "proto_detail": st.Detail}))
+			}
+		}
 		// (ii) the client was told
 		if !gotError {
 			r.Violation(sig("no error reported to the client"), detail(nil))
@@ -258,8 +270,44 @@ func session(r *ev.Run, rng *gen.Rand, sidx int) {
 			}
 		}
 		r.Count("proxy_rejected_statements_checked", 1)
+		if st.Proto == "extended-pipelined-flush" {
+			r.Count("proxy_rejected_pipelined_flush_groups_checked", 1)
+		}
 		r.Distinct(fmt.Sprintf("rejected|%s|%s|%s", p.why, st.Kind, st.Proto))
 	}
+}
+
+// withFlush re-shapes an extended-protocol statement the firewall must reject into ONE pipelined group in which the Parse
+// is followed by (Describe Statement and) Flush before Bind / Execute / Sync, the way describe-before-bind drivers batch
+// their messages, using the unnamed statement and portal: if an earlier, accepted statement of the session was prepared
+// under that name, a proxy that resumes forwarding before the Sync makes the database run that earlier statement.
+func withFlush(rng *gen.Rand, st proxyrig.Step) proxyrig.Step {
+	var parse *pgproto3.Parse
+	var bind *pgproto3.Bind
+	for _, g := range st.Groups {
+		for _, m := range g {
+			switch x := m.(type) {
+			case *pgproto3.Parse:
+				parse = x
+			case *pgproto3.Bind:
+				bind = x
+			}
+		}
+	}
+	if parse == nil || bind == nil {
+		return st
+	}
+	p := &pgproto3.Parse{Name: "", Query: parse.Query, ParameterOIDs: parse.ParameterOIDs}
+	b := &pgproto3.Bind{ParameterFormatCodes: bind.ParameterFormatCodes, Parameters: bind.Parameters, ResultFormatCodes: bind.ResultFormatCodes}
+	grp := []pgproto3.FrontendMessage{p}
+	if rng.Intn(2) == 0 {
+		grp = append(grp, &pgproto3.Describe{ObjectType: 'S', Name: ""})
+	}
+	grp = append(grp, &pgproto3.Flush{}, b, &pgproto3.Execute{}, &pgproto3.Sync{})
+	st.Groups = [][]pgproto3.FrontendMessage{grp}
+	st.Proto = "extended-pipelined-flush"
+	st.Detail = "unnamed statement and portal; Parse [Describe S] Flush Bind Execute Sync sent in one batch"
+	return st
 }
 
 // sameStatement compares ignoring case and whitespace (the forwarded text may be re-serialised).
